@@ -1,6 +1,7 @@
 import Kopf.Drv.Json
 import Kopf.Model.C06_Finalizer
 import Kopf.Model.C06_Registry
+import Kopf.Model.C06_Invoke
 open Lean
 namespace Kopf.Drv.C06
 open Kopf.C06
@@ -102,6 +103,47 @@ partial def replay (own : String) (s : LState) (i : Nat) : List Json → Json
         | none => replay own s' (i + 1) rest
     | _ => fail "unreadable item" []
 
+/-! ### the sync branch of `invoke`: replay of a real-thread run's labels -/
+
+def ilabelOf? : Json → Option ILabel
+  | .str "cancel" => some .cancel
+  | .str "return" => some (.ret false)
+  | .str "raise" => some (.ret true)
+  | .str "wake" => some .wake
+  | _ => none
+
+def finStr : Option Fin → Json
+  | none => .null
+  | some .value => .str "value"
+  | some .error => .str "error"
+  | some .cancelled => .str "cancelled"
+
+def invJson (s : Inv) : Json :=
+  Json.mkObj [("done", .bool s.done), ("returned", .bool s.returned), ("fin", finStr s.fin)]
+
+/-- `wake` of the harness = "the loop has run whatever was ready": the task's steps as long as one is enabled
+(at most three are ever enabled in a row). -/
+def wakes (postpone : Bool) (s : Inv) : Nat → Inv
+  | 0 => s
+  | n + 1 => match istep postpone s .wake with
+    | some s' => wakes postpone s' n
+    | none => s
+
+/-- The states after each label. A disabled `return`/`raise` (a function returns once) is an error. -/
+def ireplay (postpone : Bool) : Inv → List Json → Option (List Json)
+  | _, [] => some []
+  | s, j :: rest => do
+    let l ← ilabelOf? j
+    let s' ← match l with
+      | .wake => some (wakes postpone s 4)
+      | _ => istep postpone s l
+    let tl ← ireplay postpone s' rest
+    some (invJson s' :: tl)
+
+def optNat? : Json → Option (Option Nat)
+  | .null => some none
+  | j => (jNat? j).map some
+
 def handle : DrvHandler := fun op args =>
   match op, args with
   | "C06.block", [f, l] => do
@@ -151,6 +193,14 @@ def handle : DrvHandler := fun op args =>
         | [i, q, m] => some ({ id := ← jStr? i, requires := ← jBool? q, hit := ← jBool? m } : Reg)
         | _ => none
       some (ok (.bool (requiresLoop (← jStrList? ex) regs)))
+  -- the sync branch of invoke: [postpone, labels] → the observable state after each label
+  | "C06.invoke", [p, labels] => do
+      match ireplay (← jBool? p) {} (← jArr? labels) with
+      | some l => some (ok (.arr l.toArray))
+      | none => some (err "disabled")
+  -- stop_daemons for one daemon: [done, backoff|null, timeout|null, age, polling] → is a delay reported?
+  | "C06.stop", [d, b, t, a, p] => do
+      some (ok (.bool (stopDelay (← jBool? d) (← optNat? b) (← optNat? t) (← jNat? a) (← jNat? p)).isSome))
   | _, _ => none
 
 end Kopf.Drv.C06
